@@ -66,6 +66,7 @@ def unit_canon(ctx):
         vals.append(["d", [[k, G.rand_value(rng)] for k in rng.sample(range(G.KEY0, G.KEY0 + 8), rng.randint(2, 5))]])
     mout = lib.run_model_parallel("C02", ["canon " + venc(v) for v in vals])
     bad = 0
+    n_order = 0
     nontriv = set()
     dist = {"with_dict": 0, "with_tuple": 0, "order_shuffles": 0, "pyeq_pairs": 0, "pyeq_true": 0}
     for v, mo in zip(vals, mout):
@@ -88,8 +89,10 @@ def unit_canon(ctx):
         if w != v:
             dist["order_shuffles"] += 1
             if strax.deterministic_hash(L.pyval(w)) != strax.deterministic_hash(pv):
-                ctx.violation("canon_order", "deterministic_hash depends on dict insertion order",
-                              {"input": {"a": v, "b": w}})
+                n_order += 1
+                if n_order <= 2:
+                    ctx.violation("canon_order", "deterministic_hash depends on dict insertion order",
+                                  {"input": {"a": v, "b": w}})
     # Python == versus py_eqb
     pairs = []
     for v in vals[: n // 2]:
